@@ -298,8 +298,12 @@ func genTwin(r *rand.Rand, focus string) *TwinParams {
 				case 0:
 					// another writer touches other rows / other columns with a later write time
 					col := p.Cols[r.IntN(len(p.Cols))]
-					if r.IntN(2) == 0 {
+					if c := r.IntN(3); c == 0 {
 						add(TwinStep{Kind: "peer", SQL: fmt.Sprintf("UPDATE {T} SET %s = ? WHERE k = ?", col), Args: []TV{val(), key()}})
+					} else if c == 1 {
+						// a writer that has NOT seen the first writer's rows inserts one of its keys later,
+						// mentioning only one column: after merging, the newer INSERT is the row (other columns NULL)
+						add(TwinStep{Kind: "peer-blind", SQL: "INSERT INTO {T}(k," + col + ") VALUES (?,?)", Args: []TV{key(), val()}})
 					} else {
 						add(TwinStep{Kind: "peer", SQL: "INSERT INTO {T}(k," + col + ") VALUES (?,?)", Args: []TV{tvI(int64(500000 + i)), val()}})
 					}
@@ -421,6 +425,29 @@ func runTwin(x *Exec, prop string) {
 				return false
 			}
 			return true
+		}
+		var blind *Client
+		var bt string
+		for _, st := range p.Steps {
+			if st.Kind == "peer-blind" {
+				blind = w.NewPassiveClient("blind")
+				break
+			}
+		}
+		if blind != nil {
+			w.Solo(c, func() {
+				blind.Open()
+				bt = w.TableName("blind")
+				bo := opts
+				bo.Cache = 0
+				if _, err := blind.Exec(blind.CreateSQL(bt, bo)); err != nil {
+					fatal = err
+				}
+			})
+			if fatal != nil {
+				x.Fail(prop+"-unexpected-error", "blind writer open: %v", fatal)
+				return
+			}
 		}
 		nwrites, nreopen := 0, 0
 		inTxn := false
@@ -607,6 +634,33 @@ func runTwin(x *Exec, prop string) {
 						return
 					}
 					x.Probe("merged-peer-write")
+					if !compareAll("after merging " + desc) {
+						return
+					}
+				case "peer-blind":
+					if inTxn || !strings.HasPrefix(st.SQL, "INSERT INTO {T}(k,") || len(st.Args) != 2 {
+						continue
+					}
+					// a fresh writer on an EMPTY view of the prefix is not available (opening merges everything), so the
+					// blind writer is one that opened before the first write of this run and never refreshed
+					if blind == nil {
+						continue
+					}
+					_, eb := blind.Exec(strings.ReplaceAll(st.SQL, "{T}", bt), args(st.Args)...)
+					if eb != nil {
+						continue // the blind writer already holds that key itself
+					}
+					// reference: the later INSERT replaces the row
+					c.Exec("DELETE FROM n WHERE k = ?", st.Args[0].Arg())
+					if _, en := c.Exec(strings.ReplaceAll(st.SQL, "{T}", "n"), args(st.Args)...); en != nil {
+						fail("-unexpected-error", "%s: native: %v", desc, en)
+						return
+					}
+					if _, err := c.Query("select s3db_refresh(?)", t); err != nil {
+						fail("-unexpected-error", "refresh after blind peer insert: %v", err)
+						return
+					}
+					x.Probe("merged-blind-peer-insert")
 					if !compareAll("after merging " + desc) {
 						return
 					}
